@@ -168,6 +168,8 @@ def single(d, k, kind, position="root", eps="core", exclude=(), small_cat=False)
             return False
         if "F10" in exclude and kind == "refstr" and v == REFS.index(NON_SCHEMA_REF):
             return False
+        if "F12" in exclude and kind == "refstr" and v == REFS.index("#") and position in ("root", "in_not_or_extends"):
+            return False        # a reference to the whole document reached without descending into the instance: unbounded recursion
         if not (small(v, 2, 2, 2) and vok(d, kind, v)):
             return False
         # the documented validity predicate, executed for real, *before* the instance is looked at: rejected schemas cost one path
